@@ -1,5 +1,9 @@
 """C17: spiftool_version_compare is a safe, deterministic, antisymmetric order (src/strings.c)."""
+import sys
+sys.set_int_max_str_digits(0)
 import itertools, os, re
+import sys
+sys.set_int_max_str_digits(0)
 import vlib
 
 
@@ -160,6 +164,32 @@ class C17(vlib.PropertyCheck):
             post1 = rng.choice([b'', b'.1', b'rc1', b'-', b'7'])
             post2 = rng.choice([post1, post1, b'', b'.2', b'pre', b'8'])
             out.append((pre + bytes(r1) + post1, pre + bytes(r2) + post2))
+        # run lengths around every power of two up to 2^17 (counters narrower than the run length:
+        # 8-bit, 16-bit), a few per class; the pair differs in the last character, in the first, in
+        # length by one, or not at all
+        ks = [8, 9, 10, 12, 15, 16, 17] if tier == 'quick' else list(range(7, 18))
+        for k2 in ks:
+            for L in (2 ** k2 - 1, 2 ** k2, 2 ** k2 + 1):
+                for kk in 'adp':
+                    c = cls[kk][1]
+                    a = bytearray([c]) * L
+                    for variant in range(4):
+                        b = bytearray(a)
+                        if variant == 0:
+                            b[-1] = cls[kk][2]
+                        elif variant == 1:
+                            b[0] = cls[kk][2]
+                        elif variant == 2:
+                            b = b[:-1]
+                        if kk == 'd':
+                            a2, b2 = bytearray(a), bytearray(b)
+                            a2[0] = ord('1'); b2[0] = ord('1') if variant != 1 else ord('2')
+                            out.append((b'1.' + bytes(a2), b'1.' + bytes(b2)))
+                            if variant == 2:
+                                out.append((b'1.1' + b'0' * L, b'1.1'))      # L zeros appended: 10^L times larger
+                                out.append((b'1.1' + b'0' * L, b'1.2'))
+                        else:
+                            out.append((b'1' + bytes(a) + b'2', b'1' + bytes(b) + b'2'))
         # one long run against a short string of another class (class mismatch with long input)
         for l in lens:
             out.append((b'a' * l, b'1'))
